@@ -433,6 +433,7 @@ type umWorld struct {
 	custom  []keyEntry
 	targets []reflect.Type
 	raw     bool
+	sents   []error // sentinel pool for printing restored causes (default: umSentinels)
 }
 
 func buildUM(c UCase) *umWorld {
@@ -714,8 +715,12 @@ func (w *umWorld) ocauseCoq(c error) string {
 		}
 		return "(OCDef 999%nat)"
 	}
-	for i, s := range umSentinels {
-		if s == c {
+	pool := umSentinels
+	if w.sents != nil {
+		pool = w.sents
+	}
+	for i, s := range pool {
+		if safeEq(s, c) {
 			return "(OCSentinel " + cN(i) + ")"
 		}
 	}
